@@ -445,6 +445,40 @@ def lsh(name, sh):
     return f"def {name} : ShTab := shOfCode {hex(pack([sum(SHBIT[x] for x in row) for row in sh], SH_W))}"
 
 
+# grammar texts whose real token tables are emitted as data for the non-vacuity examples of Props/C24.lean
+# (a real text that both parsers accept, with RREL separator repetitions, whitespace and a comment; and a
+# text with a trailing RREL separator; a text where a separator token is followed by a non-element only at a
+# position the parser never visits as an RREL position)
+EXAMPLE_TEXTS = {"exOk": "A: b=[B|n|a.b,^c*]; // x\n", "exTrail": "A:b=[B|n|a.];", "exStr": "A: 'a.';"}
+
+
+def token_entries(toks, text):
+    """(token, position, length) for every position where a token of the common table matches (real re)"""
+    out, n = [], len(text)
+    for t, e in enumerate(toks.objs):
+        if type(e).__name__ == "StrMatch":
+            tm = e.to_match
+            low = tm.lower()
+            for p in range(n + 1):
+                seg = text[p:p + len(tm)]
+                if seg == tm or (e.ignore_case and seg.lower() == low):
+                    out.append((t, p, len(tm)))
+        else:
+            for p in range(n + 1):
+                m = e.regex.match(text, p)
+                if m:
+                    out.append((t, p, len(m.group())))
+    return out
+
+
+def lexample(name, toks, text):
+    ents = token_entries(toks, text)
+    return (f"/-- the text {text!r} -/\n".replace("-/ -/", "- / -/") +
+            f"def {name}Input : Array Char := #{lchars(text)}\n"
+            f"/-- its token table `(token, position, matched length)`, computed with Python's `re` / string comparison -/\n"
+            f"def {name}Table : List (Nat × Nat × Nat) := [" + ", ".join(f"({t}, {p}, {n})" for t, p, n in ents) + "]")
+
+
 def build():
     """-> dict with everything the harness needs + the Lean source text"""
     lp, tp = real_parsers()
@@ -502,6 +536,8 @@ def build():
     parts.append("/-- its converse -/")
     parts.append(f"def relInv : Rel := relOfCode {hex(rel_code(rel, len(s2.nodes), swap=True))}")
     parts.append(f"def depth : Nat := {DEPTH}")
+    for name, text in EXAMPLE_TEXTS.items():
+        parts.append(lexample(name, toks, text))
     if info["problem"]:
         parts.append(f"-- translator could not complete the relation: {info['problem']}".replace("-/", "- /"))
     parts.append("\nend Gen.Grammars\n")
